@@ -1,7 +1,8 @@
 """
 C07 — a Clifford tableau stays valid and tracks the right state under any history.
 
-Correspondence: every operation of the tableau API (clifford.py + transformation.py) is run on the real
+Correspondence: every operation of the tableau API (clifford.py + transformation.py, including the X / Y measurements
+`measure_x`, `measure_y`, `x_measurement_gate` and the wrapper `Stabilizer.apply_x_measurement`) is run on the real
 implementation and on the Lean model (`tab.run` / `tab.tensor`) from the *implementation's* current state; outputs are
 compared exactly (table, phase, iphase, n, outcomes, error class).
 Direct oracle (independent of the model): the tableau stays binary and symplectic, stabilizer i-phases stay 0, and for
@@ -30,6 +31,8 @@ ASSUMPTIONS = [
 
 GATES1 = ["h", "s", "sdg", "x", "y", "z"]
 GATES2 = ["cnot", "cz", "swap"]
+# X / Y measurements: op tuple (name, q, determinism, scripted_bit); driver token of the model
+XYMEAS = {"measure_x": "measx", "measure_y": "measy", "x_measurement_gate": "xmeas", "apply_x_measurement": "xmeas"}
 
 
 class Scripted:
@@ -47,10 +50,12 @@ class Scripted:
 def gen_op(rng, n, nmax, malformed=False):
     """-> op tuple"""
     if malformed:
-        k = rng.choice(["h", "cnot", "meas", "insert", "remove", "swap", "resetz"])
+        k = rng.choice(["h", "cnot", "meas", "insert", "remove", "swap", "resetz", "xy"])
         bad = n + rng.randrange(3)
         if k == "h":
             return ("h", bad)
+        if k == "xy":
+            return (rng.choice(sorted(XYMEAS)), bad, rng.choice([0, 1, "p"]), 0)
         if k == "cnot":
             return ("cnot", bad, 0) if rng.random() < 0.5 else ("cnot", 0, bad)
         if k == "meas":
@@ -70,8 +75,10 @@ def gen_op(rng, n, nmax, malformed=False):
         b = rng.randrange(n - 1)
         b = b if b < a else b + 1
         return (rng.choice(GATES2), a, b)
-    if w < 0.68:
+    if w < 0.61:
         return ("meas", rng.randrange(n), rng.choice([0, 1, "p"]), rng.randrange(2))
+    if w < 0.68:
+        return (rng.choice(sorted(XYMEAS)), rng.randrange(n), rng.choice([0, 1, "p"]), rng.randrange(2))
     if w < 0.78:
         return (rng.choice(["resetz", "resetz", "resetx", "resety"]), rng.randrange(n), rng.randrange(2), rng.choice([0, 1, "p"]), rng.randrange(2))
     if w < 0.86 and n < nmax:
@@ -115,6 +122,23 @@ def apply_impl(tab, op, scripted, rng_mod):
         scripted.queue = [op[3]]
         tab, o, p = cl.z_measurement_gate(tab, op[1], det_of(op[2]))
         outs.append((int(o), int(p) != 0))
+    elif k in ("measure_x", "measure_y"):
+        # return only the outcome; the caller's tableau is the post-measurement state (since the repair D52)
+        scripted.queue = [op[3]]
+        o = {"measure_x": cl.measure_x, "measure_y": cl.measure_y}[k](tab, op[1], det_of(op[2]))
+        outs.append((int(o), None))
+    elif k == "x_measurement_gate":
+        scripted.queue = [op[3]]
+        tab, o, p = cl.x_measurement_gate(tab, op[1], det_of(op[2]))
+        outs.append((int(o), int(p) != 0))
+    elif k == "apply_x_measurement":
+        from graphiq.backends.stabilizer.state import Stabilizer
+
+        scripted.queue = [op[3]]
+        st = Stabilizer(tab)
+        o = st.apply_x_measurement(op[1], det_of(op[2]))
+        tab = st.tableau
+        outs.append((int(o), None))
     elif k in ("resetz", "resetx", "resety"):
         scripted.queue = [op[4]]
         f = {"resetz": cl.reset_z, "resetx": cl.reset_x, "resety": cl.reset_y}[k]
@@ -152,6 +176,8 @@ def op_token(op):
         return f"{k}:{op[1]}:{op[2]}"
     if k == "meas":
         return f"meas:{op[1]}:{outcome_bit(op[2], op[3])}"
+    if k in XYMEAS:
+        return f"{XYMEAS[k]}:{op[1]}:{outcome_bit(op[2], op[3])}"
     if k in ("resetz", "resetx", "resety"):
         return f"{k}:{op[1]}:{op[2]}:{outcome_bit(op[3], op[4])}"
     if k == "insert":
@@ -240,6 +266,22 @@ def dense_expected(rho, n, op, tab_after_n, observed):
             return None
         r, p = tu.project(rho, n, q, o)
         return [r / p]
+    if k in XYMEAS:
+        # projective measurement of X_q (resp. Y_q): rotate the eigenbasis onto Z (H, resp. H S^dagger), project, rotate back;
+        # outcome o means eigenvalue (-1)^o; a forced outcome is honoured exactly when it has non-zero probability
+        q, det, sb = op[1], op[2], op[3]
+        V = tu.op_on(n, q, tu.H) if k != "measure_y" else tu.op_on(n, q, tu.H) @ tu.op_on(n, q, tu.S.conj().T)
+        rot = tu.conj(V, rho)
+        o, was_random = observed[0]
+        _, p1 = tu.project(rot, n, q, 1)
+        is_random = 1e-9 < p1 < 1 - 1e-9
+        if was_random is not None and was_random != is_random:
+            return None
+        want = (1 if p1 > 0.5 else 0) if not is_random else outcome_bit(det, sb)
+        if o != want:
+            return None
+        r, p = tu.project(rot, n, q, o)
+        return [tu.conj(V.conj().T, r / p)]
     if k in RESETS:
         # reset_z = "measure in Z, then flip the qubit iff the outcome is not the intended state" — exactly: a deterministic
         # inner measurement has its fixed outcome; a random one takes the forced outcome (0/1), resp. the drawn bit ("p":
@@ -377,6 +419,10 @@ def one_walk(ctx, res, drv, rng, n0, steps, nmax, malformed_rate=0.03, dense_max
             if same and op[0] == "meas":
                 o, was_random = outs[0]
                 same = rep.get("outs") == f"{o}{'r' if was_random else 'd'}"
+            if same and op[0] in XYMEAS:
+                o, was_random = outs[0]
+                mo = rep.get("outs", "")
+                same = mo[:1] == str(o) and (was_random is None or mo[1:] == ("r" if was_random else "d"))
             if not same:
                 # relation R: same n, valid, same signed stabilizer group
                 r_ok = int(rep["n"]) == after.n_qubits and tu.canon_from_reply(rep) == tu.stab_canon(after)
@@ -434,6 +480,9 @@ def exhaustive_two_qubit(ctx, res, drv):
                 ops.append(("resetz", q, it, d, 0))
         ops.append(("resetx", q, 1, 0, 0))
         ops.append(("resety", q, 0, 1, 0))
+        for d in (0, 1):
+            for k in sorted(XYMEAS):
+                ops.append((k, q, d, 0))
     ops += [("insert", 0), ("insert", 1), ("insert", 2), ("add",)]
     scripted = Scripted()
     for t0 in tabs:
